@@ -64,7 +64,10 @@ func runIDTok(state string, n int) {
 	dir, _ := ioutil.TempDir("", "htverif-c18-")
 	defer os.RemoveAll(dir)
 	content := ""
-	if state != "absent" {
+	if strings.HasPrefix(state, "tmp") {
+		// killed between creating the temporary file of the atomic write and the rename
+		ioutil.WriteFile(filepath.Join(dir, "token.tmp"), unhx(state[3:]), 0600)
+	} else if state != "absent" {
 		content = string(unhx(state))
 		ioutil.WriteFile(filepath.Join(dir, "token"), []byte(content), 0600)
 	}
@@ -85,7 +88,7 @@ func runIDTok(state string, n int) {
 	}
 	first := toks[0]
 	out := "new"
-	if state != "absent" && first == content {
+	if state != "absent" && !strings.HasPrefix(state, "tmp") && first == content {
 		out = "kept"
 	}
 	if !wfTokenRef(first) {
@@ -275,6 +278,9 @@ func genC18(tier string, seed uint64) {
 			st = hx([]byte(valid[:k]))
 		}
 		runIDTok(st, 2+k%4)
+	}
+	for _, k := range []int{0, 1, 7, 19, 20} {
+		runIDTok("tmp"+hx([]byte(valid[:k])), 3)
 	}
 	for _, s := range []string{valid + "x", "9m4e2mr0ui3e8a215n4w", "9M4E2MR0UI3E8A215N4G", valid + "\n", "\x00\x00", "vvvvvvvvvvvvvvvvvvvv", "00000000000000000000", strings.Repeat("a", 19) + " ", strings.Repeat("z", 20)} {
 		runIDTok(hx([]byte(s)), 3)
